@@ -1,5 +1,4 @@
--- imports the model of UriCodec_feasibility.lean (without its `main`)
-import Probe.CodecLib
+import UriCodecLib
 /-! Proof probe for C06/C01: PathUnescape ∘ PathEscape = id for every byte string, and the array parser
     inverts the joiner on the core domain. -/
 namespace Codec
